@@ -175,3 +175,35 @@ def strip_for_tlc(ev, keep_hdrs=False):
         d = {k: v for k, v in e.items() if keep_hdrs or k not in ('hdrs', 'inm', 'ims')}
         out.append(d)
     return out
+
+
+async def _worker(ctx, tree, scens, out, wid, squid_kw):
+    import squidctl
+    sq = squidctl.Squid(ctx, tree, name='w%d' % wid, **squid_kw)
+    sq.start()
+    try:
+        run = await CacheRun(ctx, sq).start()
+        for s in scens:
+            ev = await run.run_scenario(s)
+            out.append((s, ev))
+        await run.stop()
+        if not sq.alive():
+            ctx.violation('squid exited during the run', {'kind': 'exit', 'log': sq.tail_log()})
+    finally:
+        sq.stop()
+
+
+def run_scenarios(ctx, tree, scens, nworkers=6, **squid_kw):
+    """Run scenarios on nworkers squid instances (each sequentially). Returns [(scenario, events)]."""
+    squid_kw.setdefault('cache_mem', '16 MB')
+
+    async def main():
+        out = []
+        parts = [scens[i::nworkers] for i in range(nworkers)]
+        await asyncio.gather(*[_worker(ctx, tree, parts[i], out, i, squid_kw) for i in range(nworkers) if parts[i]])
+        return out
+    return asyncio.run(main())
+
+
+def contacted(ev, rid):
+    return any(e['e'] == 'Fwd' and e['id'] == rid for e in ev)
